@@ -63,9 +63,9 @@ def correspond(ctx):
     res = []
     if ctx.thorough():
         # every start-up costs ~0.5 MB that is never collected (see harness main): run in parts
-        parts = 3
+        parts = 5
         for i in range(parts):
-            c = vlib.correspond(ctx, 'c19', 'C19', ['mode=corr', 'seqs=150', 'maxops=30', 'depth=4', 'part=%d/%d' % (i, parts)],
+            c = vlib.correspond(ctx, 'c19', 'C19', ['mode=corr', 'seqs=100', 'maxops=30', 'depth=5', 'part=%d/%d' % (i, parts)],
                                 timeout=1200)
             c['name'] = 'groupchain-part%d' % i
             c['violations'] = _viols(c.get('stats') if isinstance(c.get('stats'), dict) else None)
